@@ -55,10 +55,7 @@ impl<R: AsyncRead + Unpin + Send + Sync> AsyncReadPacket for R {
     }
 
     async fn read_string(&mut self) -> Result<String, Error> {
-        let length = self.read_varint().await? as usize;
-
-        let mut buffer = vec![0; length];
-        self.read_exact(&mut buffer).await?;
+        let buffer = self.read_bytes().await?;
 
         String::from_utf8(buffer).map_err(|_| Error::InvalidEncoding)
     }
@@ -96,10 +93,20 @@ impl<R: AsyncRead + Unpin + Send + Sync> AsyncReadPacket for R {
     }
 
     async fn read_bytes(&mut self) -> Result<Vec<u8>, Error> {
-        let length = self.read_varint().await? as usize;
+        // a negative length prefix can never be satisfied
+        let length = self.read_varint().await?;
+        let length = usize::try_from(length).map_err(|_| Error::IllegalPacketLength)?;
 
-        let mut buffer = vec![0; length];
-        self.read_exact(&mut buffer).await?;
+        // the prefix is untrusted: let the buffer grow with the bytes that are actually there instead
+        // of allocating whatever the prefix claims (up to 2 GiB) up front
+        let mut buffer = Vec::new();
+        (&mut *self)
+            .take(length as u64)
+            .read_to_end(&mut buffer)
+            .await?;
+        if buffer.len() != length {
+            return Err(std::io::Error::from(std::io::ErrorKind::UnexpectedEof).into());
+        }
 
         Ok(buffer)
     }
